@@ -38,6 +38,7 @@ class SimSocket:
         self.empty_reads = 0     # consecutive end-of-stream reads (progress watchdog)
         self.clock = 0           # virtual milliseconds
         self.calls = 0           # transport calls of any kind (recv, send, close, shutdown)
+        self.step_recvs = []     # number of recv calls so far, recorded by session.run_impl after every step
 
     def timeout_ms(self):
         return None if self.timeout is None else int(round(self.timeout * 1000))
